@@ -1559,6 +1559,10 @@ namespace awkward {
         offsetsptrs.push_back(offsets.ptr());
         offsetsraws.push_back(offsets.data());
         contents.push_back(pair.second);
+        if (contents.size() > 1  &&  has_offsets != (offsets.length() != 0)) {
+          throw std::invalid_argument(
+            std::string("cannot flatten a union whose alternatives resolve 'axis' at different levels") + FILENAME(__LINE__));
+        }
         has_offsets = (offsets.length() != 0);
       }
 
